@@ -142,6 +142,7 @@ type Site struct {
 type Block struct {
 	Encl EnclKind
 	File int // 0 = a.go (with the type declarations in package d), 1 = b.go, 2 = c_test.go
+	ID   int // stable identity across layout transformations (0 = use the position in the history)
 }
 
 func (b Block) String() string { return fmt.Sprintf("%s@%d", b.Encl, b.File) }
@@ -151,6 +152,7 @@ var FileNames = []string{"a.go", "b.go", "c_test.go"}
 // SiteInst is a rendered site.
 type SiteInst struct {
 	Site    *Site
+	BlockID int // Block.ID if set, else index+1
 	Block   int // index into the history
 	Wrap    Wrapper
 	File    string // pkgpath/base
@@ -180,6 +182,7 @@ type Spec struct {
 	Sites  []Site  // site family (IMM or CTOR)
 	Single *Single // when set: render only this one site under this wrapper in every block
 	BlankLines bool // layout perturbation: blank line + plain comment before every declaration and statement
+	Mangle     int  // text-level layout transformation applied to every file: see Mangle
 }
 
 type Single struct {
@@ -420,7 +423,7 @@ func Render(s *Spec) *Rendered {
 	pk := prog.Pkg{Path: pkgPath}
 	for i, w := range files {
 		if w != nil {
-			pk.Files = append(pk.Files, prog.File{Name: FileNames[i], Src: w.b.String()})
+			pk.Files = append(pk.Files, prog.File{Name: FileNames[i], Src: Mangle(s.Mangle, w.b.String())})
 		}
 	}
 	p.Pkgs = append(p.Pkgs, pk)
@@ -585,5 +588,9 @@ func (r *renderer) section(w *lineWriter, file string, bi int, wr Wrapper, ptrR,
 
 func (r *renderer) record(st *Site, bi int, wr Wrapper, file string, line int) {
 	r.out.byLine[fmt.Sprintf("%s:%d", file, line)] = len(r.out.Sites)
-	r.out.Sites = append(r.out.Sites, SiteInst{Site: st, Block: bi, Wrap: wr, File: file, Line: line})
+	id := r.spec.Blocks[bi].ID
+	if id == 0 {
+		id = bi + 1
+	}
+	r.out.Sites = append(r.out.Sites, SiteInst{Site: st, BlockID: id, Block: bi, Wrap: wr, File: file, Line: line})
 }
